@@ -99,11 +99,45 @@ def builders(ctx):
                        for k, ws in (("rot_h1", (("E:0", "O"), ("E:1", "O"))),
                                      ("rot_chol", (("G", "E:0", "O"), ("G", "E:1", "O"))))
                        for s, w in enumerate(ws)], min_sites=4)
-    run_one("noci", "_rot_orbs_single_det", {**base, sym("trial_up"): ("O", "E:0"), sym("trial_dn"): ("O", "E:1")},
-            lambda e: [(f"{k}[{s}]", getitem(getitem(e.result, const(i)), const(s)), w)
-                       for i, (k, ws) in enumerate((("rot_h1", (("E:0", "O"), ("E:1", "O"))),
-                                                    ("rot_chol", (("G", "E:0", "O"), ("G", "E:1", "O")))))
-                       for s, w in enumerate(ws)], min_sites=4)
+    # the per-determinant NOCI helper: what each of its (private) parameters is is read off the call in
+    # _build_measurement_intermediates -- a determinant block of spin s, the one-body integrals, the Cholesky vectors
+    # (flat or already reshaped to matrices), or the ham_data dictionary itself
+    from ..rules.trialsib import Sib
+    from ..rules.common import m_method_reshape_of
+    bnd = Sib(ctx).helper_call_binding("noci", "_rot_orbs_single_det", "_build_measurement_intermediates")
+    dets = getitem(getitem(WD, const("ci_coeffs_dets")), const(1))
+    nseeds = dict(base)
+    known = bnd is not None
+    def root(t):
+        t = strip_wrappers(t)
+        while t.op == "setitem":          # an entry (or the dictionary) updated in place before the call: same role
+            t = strip_wrappers(t.args[0])
+        return t
+    for pname, actual in (bnd or {}).items():
+        a0 = root(actual)
+        if a0 is getitem(dets, const(0)):
+            nseeds[sym(pname)] = ("O", "E:0")
+        elif a0 is getitem(dets, const(1)):
+            nseeds[sym(pname)] = ("O", "E:1")
+        elif a0 is h1:
+            nseeds[sym(pname)] = ("S", "O", "O")
+        elif a0 is chol:
+            nseeds[sym(pname)] = ("G", "F")
+        elif m_method_reshape_of(a0, chol):
+            nseeds[sym(pname)] = ("G", "O", "O")
+        elif a0 is HD or a0 is WD:
+            pass
+        else:
+            known = False
+    if not known:
+        ctx.rep.note("noci._rot_orbs_single_det: the roles of its parameters could not be read off its call site; "
+                     "the index-kind rule does not apply to it")
+    else:
+        run_one("noci", "_rot_orbs_single_det", nseeds,
+                lambda e: [(f"{k}[{s}]", getitem(getitem(e.result, const(i)), const(s)), w)
+                           for i, (k, ws) in enumerate((("rot_h1", (("E:0", "O"), ("E:1", "O"))),
+                                                        ("rot_chol", (("G", "E:0", "O"), ("G", "E:1", "O")))))
+                           for s, w in enumerate(ws)], min_sites=4)
     run_one("ghf", "_build_measurement_intermediates", {**base, mo: ("SO", "ES")},
             lambda e: [("rot_h1", getitem(e.result, const("rot_h1")), ("ES", "SO")),
                        ("rot_chol", getitem(e.result, const("rot_chol")), ("G", "ES", "SO"))], min_sites=3)
